@@ -125,7 +125,7 @@ def main():
     ]
     m = {
         "version": 1,
-        "setup_cmd": "cd /verif && mkdir -p bin && GOFLAGS=-mod=mod GOPROXY=off GOSUMDB=off GOTOOLCHAIN=local go build -o bin/check ./cmd/check",
+        "setup_cmd": "/verif/scripts/setup.sh",
         "hooks": {
             "guard": "verif",
             "enable": "no in-tree hooks: the harness reads implementation state by reflection and instruments sources at build time through go build -overlay (nothing under /repo is tagged)",
